@@ -35,6 +35,18 @@ CHECKS = {
              'that files are unambiguous; the v3 layout is the one the parser\'s declarative structs define (no real '
              'ktrace file available offline).',
         technique='generated-file workload + reference-model oracle, chunking metamorphism, from_kd_buf contract'),
+    'C07': dict(
+        category='exploration', design_ref='DESIGN.md section 4, C07',
+        text='Runtime monitoring: hostile histories of individually in-domain events (every decodable code under '
+             'every dropped prefix / dropped nested record / duplication; kernel-shaped templates mixed, nested and '
+             'interleaved on 1-3 threads; the situation classes the statement names produced by construction) are fed '
+             'to the real TracesParser (and through formatted_traces on a v2 file); any exception from feed() or '
+             'str(trace) is a violation, shrunk with ddmin and keyed by decoder function + exception type. '
+             'sys.monitoring shows which decoder functions were entered.',
+        note='Trusted: vlib/domain.py (what counts as an individually well-formed event), vlib/histories.py templates. '
+             'Lookup paths are chunk-safe (no UTF-8 character straddles a record) because single records are dropped.',
+        technique='hostile-history workload + exception oracle at the feed/str boundary + sys.monitoring handler '
+                  'coverage + ddmin witness shrinking'),
 }
 
 PENDING_REASON = 'check not yet built in this session (design in DESIGN.md section 4); not claimed until it exists'
